@@ -601,6 +601,10 @@ def do_codegen(codegen, *mvs) -> CodegenOutput:
     if isinstance(res, CodegenOutput):
         return res
 
+    if not isinstance(res, LambdifyInput) and not hasattr(res, 'keys'):
+        # A scalar expression is the coefficient of a scalar multivector, as in do_compile.
+        res = {0: res}
+
     if isinstance(res, LambdifyInput):
         funcname = res.funcname
         args = res.args
